@@ -173,6 +173,33 @@ class WFile:
         return self.pipe.world.devnull_fd()
 
 
+class RawWFile(WFile):
+    """Write end of a pipe opened unbuffered (io.FileIO): write() is a single write(2).  No user-space buffer, no
+    lock: the kernel makes writes of up to PIPE_BUF bytes atomic, a larger blocking write goes out in pieces as room
+    becomes available and other writers of the same pipe may get in between."""
+
+    PIPE_BUF = 4096
+
+    def write(self, data):
+        s = self.s
+        s.switch("w", self.pipe.name)
+        if self.closed:
+            raise ValueError("write to closed file")
+        data = bytes(data)
+        p = self.pipe
+        if len(data) <= self.PIPE_BUF and p.cap >= len(data):
+            while p.r_open and p.space() < len(data):
+                s.probe("write-blocked-on-full-pipe")
+                s.block(lambda: (not p.r_open) or p.space() >= len(data), None, "pipe-full", p.name)
+        self._raw(data)
+        return len(data)
+
+    def flush(self):
+        self.s.switch("fl", self.pipe.name)
+        if self.closed:
+            raise ValueError("flush of closed file")
+
+
 class RFile:
     """Read end.  read(n) returns between 1 and n bytes (or b'' at EOF)."""
 
